@@ -110,6 +110,34 @@ pub fn carry_lists(blk: usize, nblocks: usize) -> Vec<Vec<Vec<u8>>> {
     out
 }
 
+/// related signatures of a valid 64-byte (r || s) ECDSA signature: kind 0 = (r, n - s), 1 = (r, 0), 2 = (n - r, s)
+pub fn signature_twin(sig: &[u8], k1: bool, kind: u64) -> Vec<u8> {
+    use num_bigint::BigUint;
+    if sig.len() != 64 {
+        return sig.to_vec();
+    }
+    let n = BigUint::parse_bytes(
+        if k1 { b"FFFFFFFFFFFFFFFFFFFFFFFFFFFFFFFEBAAEDCE6AF48A03BBFD25E8CD0364141" } else { b"FFFFFFFF00000000FFFFFFFFFFFFFFFFBCE6FAADA7179E84F3B9CAC2FC632551" },
+        16,
+    )
+    .unwrap();
+    let (r, s) = (BigUint::from_bytes_be(&sig[..32]), BigUint::from_bytes_be(&sig[32..]));
+    let (r2, s2) = match kind {
+        0 => (r, &n - &s),
+        1 => (r, BigUint::from(0u32)),
+        _ => (&n - &r, s),
+    };
+    let pad = |x: &BigUint| {
+        let b = x.to_bytes_be();
+        let mut v = vec![0u8; 32usize.saturating_sub(b.len())];
+        v.extend_from_slice(&b);
+        v
+    };
+    let mut out = pad(&r2);
+    out.extend(pad(&s2));
+    out
+}
+
 pub fn gen_bytes_atom(r: &mut Rng, max_len: usize) -> Vec<u8> {
     let mut len = *r.pick(LEN_CLASSES);
     if len > max_len {
@@ -1220,7 +1248,10 @@ impl<'a> ProgGen<'a> {
             self.r.pick(&self.points.r1).clone()
         };
         let mut sig = sig;
-        if self.r.chance(1, 6) {
+        if self.r.chance(1, 8) {
+            let kind = self.r.below(3);
+            sig = signature_twin(&sig, k1, kind);
+        } else if self.r.chance(1, 6) {
             let i = self.r.usize(sig.len());
             sig[i] ^= 1 << self.r.below(8);
         }
